@@ -23,6 +23,11 @@ func gen(t *rapid.T) peng.Case {
 		// re-created under calls in flight, whose late replies must not reach anybody else
 		c.Mgrs[0].FailSendAt = rapid.SliceOfNDistinct(rapid.IntRange(1, 120), 1, 2, rapid.ID[int]).Draw(t, "failSendAt")
 	}
+	if len(c.Configs) > 0 && rapid.IntRange(0, 3).Draw(t, "aliases") == 0 {
+		// some configurations register their servers a second time, under other ids (one address, two
+		// nodes, two connections): replies arrive under the ids of the configuration that was called
+		c.AliasCfg = rapid.SliceOfN(rapid.Bool(), len(c.Configs), len(c.Configs)).Draw(t, "aliasCfg")
+	}
 	c.GoMaxProcs = rapid.SampledFrom([]int{0, 0, 2, 4}).Draw(t, "gomaxprocs")
 	c.Jitter = peng.GenJitter(t)
 	return c
@@ -37,6 +42,12 @@ func run(c peng.Case) vt.Verdict {
 	if v != nil {
 		return vt.Verdict{OK: false, Key: v.Key, Msg: v.Msg, History: r.Events, Classes: classes}
 	}
+	for _, ci := range r.Calls {
+		if ci.Alias {
+			classes = append(classes, "call-on-alias-configuration")
+			break
+		}
+	}
 	if len(r.Clients) > 0 && atomic.LoadInt32(&r.Clients[0].SendsFailed) > 0 {
 		classes = append(classes, "injected-send-failure")
 	}
@@ -48,7 +59,7 @@ func run(c peng.Case) vt.Verdict {
 func TestProp(t *testing.T) {
 	vt.Main(t, vt.Spec[peng.Case]{
 		ID:           "C05",
-		Rule:         "rapid-generated concurrent programs: one or two client managers (their message ids collide), 3-6 servers, up to 4 overlapping configurations, 2-8 threads issuing 6-60 calls of all kinds with unique tokens; handlers release at once and answer after generated delays up to 6 ms while calls carry cancellations/deadlines of 1 us - 5 ms (replies arrive long after the call ended), in a quarter of the cases one or two injected failures of single stream writes of the first manager (streams are re-created under calls in flight), in half of the cases seeded jitter at the statement-level yield points of the instrumented runtime; oracle: every reply shown to any quorum function and every RPC result carries the call's own token, sits under the node that produced it and equals what that handler produced (stamps: token, node, serial, payload hash), entries never change between invocations of non-streaming calls, no quorum function runs after its call returned; non-trivial (measured) = two calls overlapping in time on a shared node, or a reply produced after its call ended",
+		Rule:         "rapid-generated concurrent programs: one or two client managers (their message ids collide), 3-6 servers, up to 4 overlapping configurations (in a quarter of the cases some of them register their servers a second time under other node ids - one address, two nodes), 2-8 threads issuing 6-60 calls of all kinds with unique tokens; handlers release at once and answer after generated delays up to 6 ms while calls carry cancellations/deadlines of 1 us - 5 ms (replies arrive long after the call ended), in a quarter of the cases one or two injected failures of single stream writes of the first manager (streams are re-created under calls in flight), in half of the cases seeded jitter at the statement-level yield points of the instrumented runtime; oracle: every reply shown to any quorum function and every RPC result carries the call's own token, sits under the node that produced it and equals what that handler produced (stamps: token, node, serial, payload hash), entries never change between invocations of non-streaming calls, no quorum function runs after its call returned; non-trivial (measured) = two calls overlapping in time on a shared node, or a reply produced after its call ended",
 		Gen:          gen,
 		Run:          run,
 		TrackCurrent: true,
